@@ -24,8 +24,7 @@
  *      live thread runs to completion.
  *
  * Control functions (called through ctypes): shim_set_script, shim_set_plan, shim_last_error.
- * Errors: 1 = not every scripted iteration was executed, 2 = iteration outside the loop range,
- *         3 = internal (baton), 4 = an iteration was executed twice / handed out twice.
+ * Errors: 1 = not every iteration of the loop was executed, 3 = internal (baton).
  */
 #include <pthread.h>
 #include <stdbool.h>
@@ -62,6 +61,31 @@ static bool g_loop_used = false;  /* a work-sharing runtime call was made (not s
 static bool g_in_parallel = false;
 static int g_done[MAX_THREADS];  /* thread has left the region (mode 1) / loop (mode 0) */
 static __thread int t_id = 0;
+
+/* which iterations of the open loop have been handed out; the scripts are written for the loop over the
+   rows of a block, but the shim serves whatever iteration space the compiled loop really has: entries that
+   do not exist (or were served already) are skipped, iterations no entry names are served in ascending
+   order once the script is used up */
+static unsigned char *g_handed = NULL;
+static long g_niter = 0, g_nhanded = 0;
+
+static long iter_count(long start, long end, long incr) {
+    if (incr > 0) return end > start ? (end - start + incr - 1) / incr : 0;
+    if (incr < 0) return start > end ? (start - end + (-incr) - 1) / (-incr) : 0;
+    return 0;
+}
+
+/* caller holds g_mu */
+static bool valid_unhanded(long it) { return it >= 0 && it < g_niter && !g_handed[it]; }
+static long lowest_unhanded(void) {
+    for (long i = 0; i < g_niter; i++) if (!g_handed[i]) return i;
+    return -1;
+}
+static void hand(long it, long *istart, long *iend) {
+    g_handed[it] = 1; g_nhanded++;
+    *istart = g_start + it * g_incr;
+    *iend = *istart + g_incr;
+}
 
 void shim_set_script(int nthreads, long len, const int *threads, const long *iters) {
     g_mode = 0;
@@ -130,13 +154,13 @@ static bool take_mode1(long *istart, long *iend) {
     sched_point();
     pthread_mutex_lock(&g_mu);
     bool ok = false;
-    if (g_oi < g_norder) {
-        long it = g_order[g_oi++];
-        if (it < 0 || (g_incr > 0 ? g_start + it * g_incr >= g_end : g_start + it * g_incr <= g_end)) g_error = 2;
-        *istart = g_start + it * g_incr;
-        *iend = *istart + g_incr;
-        ok = true;
+    long it = -1;
+    while (g_oi < g_norder) {
+        long cand = g_order[g_oi++];
+        if (valid_unhanded(cand)) { it = cand; break; }
     }
+    if (it < 0) it = lowest_unhanded();
+    if (it >= 0) { hand(it, istart, iend); ok = true; }
     pthread_mutex_unlock(&g_mu);
     return ok;
 }
@@ -151,21 +175,34 @@ static bool my_turn(void) {
 static bool take(long *istart, long *iend) {
     pthread_mutex_lock(&g_mu);
     for (;;) {
+        /* drop entries that name no servable iteration */
+        while (g_k < g_len && !valid_unhanded(g_iter[g_k])) g_k++;
         bool mine_left = false;
         for (long k = g_k; k < g_len; k++) {
-            if (g_thread[k] == t_id) { mine_left = true; break; }
+            if (g_thread[k] == t_id && valid_unhanded(g_iter[k])) { mine_left = true; break; }
         }
         if (!mine_left) {
+            if (g_k >= g_len) {
+                /* script used up: serve what it did not name */
+                long it = lowest_unhanded();
+                if (it >= 0) {
+                    hand(it, istart, iend);
+                    pthread_cond_broadcast(&g_cv);
+                    pthread_mutex_unlock(&g_mu);
+                    return true;
+                }
+            } else if (g_nhanded < g_niter) {
+                /* entries of other threads are pending: wait for them, there may be unnamed work afterwards */
+                pthread_cond_wait(&g_cv, &g_mu);
+                continue;
+            }
             g_done[t_id] = 1;
             pthread_cond_broadcast(&g_cv);
             pthread_mutex_unlock(&g_mu);
             return false;
         }
         if (my_turn()) {
-            long it = g_iter[g_k];
-            if (it < 0 || g_start + it * g_incr >= g_end) { g_error = 2; }
-            *istart = g_start + it * g_incr;
-            *iend = *istart + g_incr;
+            hand(g_iter[g_k], istart, iend);
             g_k++;
             pthread_cond_broadcast(&g_cv);
             pthread_mutex_unlock(&g_mu);
@@ -204,6 +241,10 @@ static void open_loop(long start, long end, long incr) {
     pthread_mutex_lock(&g_mu);
     if (!g_loop_open) {
         g_start = start; g_end = end; g_incr = incr == 0 ? 1 : incr; g_loop_open = true;
+        g_niter = iter_count(g_start, g_end, g_incr);
+        free(g_handed);
+        g_handed = (unsigned char *)calloc(g_niter > 0 ? g_niter : 1, 1);
+        g_nhanded = 0;
     }
     g_loop_used = true;
     pthread_mutex_unlock(&g_mu);
@@ -300,10 +341,8 @@ static void run_region(void (*fn)(void *), void *data) {
     thread_leave();
     for (int i = 1; i < g_nthreads; i++) pthread_join(th[i], NULL);
     g_in_parallel = false;
-    if (g_loop_used) {
-        /* not every scripted iteration was executed */
-        if (g_mode == 0 && g_k != g_len) g_error = g_error ? g_error : 1;
-        if (g_mode == 1 && g_oi != g_norder) g_error = g_error ? g_error : 1;
+    if (g_loop_used && g_nhanded != g_niter) {
+        g_error = g_error ? g_error : 1;   /* not every iteration of the loop was executed */
     }
     g_loop_open = false;
 }
